@@ -38,6 +38,9 @@ type Case struct {
 	// of an (n+2) x (n+3) matrix), ST (slice of the transposed (n+2) x (n+3) matrix); vector kind:
 	// S (slice of a vector of length n+3).
 	Views string `json:"views,omitempty"`
+	// Scale k: the input matrix is A*2^k (scale.go); exact in binary floating point, so the
+	// reference is the unscaled exact reference shifted by the scaling law of the routine.
+	Scale int `json:"scale,omitempty"`
 }
 
 var elemTypes = map[string]ad.ScalarType{
@@ -115,10 +118,16 @@ func newVector(t ad.ScalarType, n int, kind string) ad.Vector {
 func buildMatrix(t ad.ScalarType, m exact.Mat) ad.Matrix { return buildMatrixV(t, m, "") }
 
 func buildMatrixV(t ad.ScalarType, m exact.Mat, kind string) ad.Matrix {
+	return buildMatrixS(t, m, kind, 0)
+}
+
+// buildMatrixS: the matrix m*2^scale (exact: small integers times a power of two inside the
+// range of the element type).
+func buildMatrixS(t ad.ScalarType, m exact.Mat, kind string, scale int) ad.Matrix {
 	r := newMatrix(t, m.N, kind)
 	for i := 0; i < m.N; i++ {
 		for j := 0; j < m.N; j++ {
-			r.At(i, j).SetFloat64(float64(m.At(i, j)))
+			r.At(i, j).SetFloat64(math.Ldexp(float64(m.At(i, j)), scale))
 		}
 	}
 	return r
@@ -377,6 +386,31 @@ func runCase(cs Case) (v verdict) {
 			}
 		}
 	}
+	// scaling law of the linear routines: inverse and solution of A*2^k are 2^-k times those of A
+	// (inside the selected block; outside it x and b keep their initial values). Multiplying the
+	// returned numbers by 2^k is exact in float64.
+	inBlock := make([]bool, n)
+	for _, i := range idx {
+		inBlock[i] = true
+	}
+	unscaleM := func(X ad.ConstMatrix) func(i, j int) float64 {
+		return func(i, j int) float64 {
+			v := X.ConstAt(i, j).GetFloat64()
+			if cs.Scale != 0 && inBlock[i] && inBlock[j] {
+				v = math.Ldexp(v, cs.Scale)
+			}
+			return v
+		}
+	}
+	unscaleV := func(x ad.ConstVector) func(i int) float64 {
+		return func(i int) float64 {
+			v := x.ConstAt(i).GetFloat64()
+			if cs.Scale != 0 && inBlock[i] {
+				v = math.Ldexp(v, cs.Scale)
+			}
+			return v
+		}
+	}
 	mc := maskClass(cs.Mask)
 	withMask := func(s string) string {
 		if mc != "" && has(cs.Opt, "sub") {
@@ -418,7 +452,7 @@ func runCase(cs Case) (v verdict) {
 
 	switch cs.Routine {
 	case "matrixInverse":
-		a := buildMatrixV(t, M, vk("in"))
+		a := buildMatrixS(t, M, vk("in"), cs.Scale)
 		var args []interface{}
 		if has(cs.Opt, "PD") {
 			args = append(args, matrixInverse.PositiveDefinite{Value: true})
@@ -447,11 +481,11 @@ func runCase(cs Case) (v verdict) {
 			if r, c := X.Dims(); r != n || c != n {
 				return "result-dims", fmt.Sprintf("result is %dx%d", r, c)
 			}
-			return checkInverseBlock(func(i, j int) float64 { return X.ConstAt(i, j).GetFloat64() }, n, B, idx, u)
+			return checkInverseBlock(unscaleM(X), n, B, idx, u)
 		})
 
 	case "gaussJordan":
-		a := buildMatrixV(t, M, vk("a"))
+		a := buildMatrixS(t, M, vk("a"), cs.Scale)
 		x := newMatrix(t, n, vk("x"))
 		for i := 0; i < n; i++ {
 			for j := 0; j < n; j++ {
@@ -472,7 +506,7 @@ func runCase(cs Case) (v verdict) {
 		}
 		res := guarded(n, func() error { return gaussJordan.Run(a, x, b, args...) })
 		return judgeLinear(res, func() (string, string) {
-			if bad, what := checkInverseBlock(func(i, j int) float64 { return x.ConstAt(i, j).GetFloat64() }, n, B, idx, u); bad != "" {
+			if bad, what := checkInverseBlock(unscaleM(x), n, B, idx, u); bad != "" {
 				return bad, what
 			}
 			inS := make([]bool, n)
@@ -487,11 +521,11 @@ func runCase(cs Case) (v verdict) {
 			if B.N == 0 {
 				return "", ""
 			}
-			return checkSolve(func(i int) float64 { return b.ConstAt(i).GetFloat64() }, B, idx, cs.Rhs, u, "A*x!=b")
+			return checkSolve(unscaleV(b), B, idx, cs.Rhs, u, "A*x!=b")
 		})
 
 	case "backSubstitution":
-		a := buildMatrixV(t, M, vk("in"))
+		a := buildMatrixS(t, M, vk("in"), cs.Scale)
 		var b ad.Vector
 		rhs := cs.Rhs
 		if has(cs.Opt, "nilb") {
@@ -516,11 +550,11 @@ func runCase(cs Case) (v verdict) {
 			if X.Dim() != n {
 				return "result-dims", fmt.Sprintf("result has dim %d", X.Dim())
 			}
-			return checkSolve(func(i int) float64 { return X.ConstAt(i).GetFloat64() }, B, idx, rhs, u, "R*x!=b")
+			return checkSolve(unscaleV(X), B, idx, rhs, u, "R*x!=b")
 		})
 
 	case "determinant":
-		a := buildMatrixV(t, M, vk("in"))
+		a := buildMatrixS(t, M, vk("in"), cs.Scale)
 		var args []interface{}
 		if has(cs.Opt, "PD") {
 			args = append(args, determinant.PositiveDefinite{Value: true})
@@ -555,11 +589,25 @@ func runCase(cs Case) (v verdict) {
 			return verdict{outcome: cls + ":nil", nontriv: true, bad: "nil-result", what: "nil scalar returned without error", class: cls}
 		}
 		got := D.GetFloat64()
+		// scaling law: det(A*2^k) = 2^(k*n)*det(A), log det(A*2^k) = k*n*log(2) + log det(A)
+		shift := cs.Scale * n
+		emin, emax := -1022, 1023
+		if strings.HasSuffix(cs.Elem, "32") {
+			emin, emax = -126, 127
+		}
 		if detB == 0 {
 			// cofactor expansion: absolute tolerance scaled by n! * max|a|^n
 			scale := 1.0
 			for i := 1; i <= n; i++ {
 				scale *= float64(i) * 2
+			}
+			if shift != 0 {
+				// scaled input: the same bound shifted, not below the smallest normal number; not
+				// judged when the n-fold products of the expansion leave the range of the element type
+				if _, e := math.Frexp(scale); e-1+shift > emax-24 {
+					return verdict{outcome: "singular:scaled-products-not-representable"}
+				}
+				scale = math.Max(math.Ldexp(scale, shift), math.Ldexp(1, emin)/(tolC*u))
 			}
 			if !(math.Abs(got) <= tolC*u*scale) {
 				return verdict{outcome: "singular:wrong", nontriv: true, bad: "det!=ref", what: fmt.Sprintf("det=%v, exact 0", got), class: cls}
@@ -568,14 +616,21 @@ func runCase(cs Case) (v verdict) {
 		}
 		kap := exact.Kappa(B, B.Adj(), detB)
 		if has(cs.Opt, "log") {
-			want := math.Log(float64(detB))
+			want := math.Log(float64(detB)) + float64(shift)*math.Ln2
 			if !(math.Abs(got-want) <= tolC*u*kap*math.Max(1, math.Abs(want))) {
-				return verdict{outcome: cls + ":wrong", nontriv: true, bad: "logdet!=log(ref)", what: fmt.Sprintf("logdet=%v, exact log(%d)=%v", got, detB, want), class: cls}
+				return verdict{outcome: cls + ":wrong", nontriv: true, bad: "logdet!=log(ref)", what: fmt.Sprintf("logdet=%v, exact log(%d*2^%d)=%v", got, detB, shift, want), class: cls}
 			}
 		} else {
-			want := float64(detB)
+			want := math.Ldexp(float64(detB), shift)
+			if shift != 0 {
+				// judged only where the true determinant is a normal number of the element type with a
+				// margin of 2^24 on either side (sums of n! products; the square root for the PD route)
+				if _, e := math.Frexp(float64(detB)); e-1+shift < emin+24 || e-1+shift > emax-24 {
+					return verdict{outcome: cls + ":scaled-determinant-not-representable"}
+				}
+			}
 			if !(math.Abs(got-want) <= tolC*u*kap*math.Abs(want)) {
-				return verdict{outcome: cls + ":wrong", nontriv: true, bad: "det!=ref", what: fmt.Sprintf("det=%v, exact %d", got, detB), class: cls}
+				return verdict{outcome: cls + ":wrong", nontriv: true, bad: "det!=ref", what: fmt.Sprintf("det=%v, exact %d*2^%d", got, detB, shift), class: cls}
 			}
 		}
 		return verdict{outcome: cls + ":ok", nontriv: true}
@@ -609,6 +664,9 @@ func describe(cs Case, what string) string {
 	if cs.Views != "" {
 		vs = " views{" + cs.Views + "}"
 	}
+	if cs.Scale != 0 {
+		vs += fmt.Sprintf(" input scaled by 2^%d", cs.Scale)
+	}
 	return fmt.Sprintf("%s(%s) %s%s on A=%v mask=%v rhs=%v: %s", cs.Routine, cs.Opt, cs.Elem, vs, exact.FromInts(cs.N, cs.A), cs.Mask, cs.Rhs, what)
 }
 
@@ -620,6 +678,28 @@ func judge(cs Case) (verdict, string, string) {
 	v := runCase(cs)
 	if v.bad == "" {
 		return v, "", ""
+	}
+	if cs.Scale != 0 {
+		// a violation that also occurs on the unscaled matrix keeps the unscaled key
+		unscaled := cs
+		unscaled.Scale = 0
+		if pv := runCase(unscaled); pv.bad != "" {
+			return v, keyOf(unscaled, pv), pv.what + " (also with the unscaled matrix)"
+		}
+		// the scaling is the structural signature: pivot order and mask class are dropped
+		kv := v
+		if i := strings.Index(kv.class, ","); i >= 0 {
+			kv.class = kv.class[:i]
+		}
+		if strings.HasPrefix(kv.class, "pivot-cycles") {
+			kv.class = "regular"
+		}
+		if cs.Scale > 0 {
+			kv.class += ",scaled-up"
+		} else {
+			kv.class += ",scaled-down"
+		}
+		return v, keyOf(cs, kv), v.what + " (with the unscaled matrix the call is correct)"
 	}
 	if cs.Views == "" {
 		return v, keyOf(cs, v), v.what
@@ -903,8 +983,9 @@ func main() {
 		Rule: "every n x n integer matrix of the stated lattices (n<=3, thorough n<=4) and of the structured families of sizes 5 and 6 (large.go: all n! row permutations of unit upper-triangular templates = every pivot order, companion matrices in four orientations over all coefficient vectors, bordered identities, symmetric positive-definite tridiagonal, unit upper-triangular Toeplitz; thorough also permutation matrices +-1 in one entry) x every routine (matrixInverse, gaussJordan solve, determinant, backSubstitution) x every option set whose precondition the matrix satisfies exactly " +
 			"(PositiveDefinite only on exactly-SPD, UpperTriangular/backSubstitution only on upper-triangular input; Submatrix over all 2^n masks for n<=4 and over {full, empty, each single exclusion, both alternating masks, leading and trailing half} for n>=5; caller-supplied InSitu buffers pre-filled with finite garbage; LogScale) x element type x right-hand side; " +
 			"plus view operands (views.go): on the lattices n=1, n=2 and n=3 over {0,1} (+ the symmetric n=3 matrices with diagonal 2; thorough: + row-permuted triangular, companion, tridiagonal and Toeplitz families of size 4) every routine x option set (masks: full and each single exclusion) x all four element types x every assignment of view kinds {plain, transposed view, slice of a larger matrix, slice of a transposed larger matrix; vectors: plain, slice of a longer vector} to ALL caller-supplied operands the option set uses (input matrix, right-hand side, gaussJordan's a/x/b, InSitu Id/A/B/Cholesky.L, backSubstitution InSitu A/X) with at least one view, judged by the same defining equations; a violation that also occurs with plain operands is reported under the plain key, otherwise under the single view operand that reproduces it; " +
-			"plus two-call histories sharing one in-situ object (hist.go): every routine with work buffers x ordered pairs of option sets x first inputs of a lattice containing singular, not-SPD, non-triangular and non-finite matrices x regular admissible second inputs, the second call must equal the same call with fresh buffers (non-trivial when the first call failed or its input was inadmissible); " +
-			"plus recycle histories (hist.go): the matrix RETURNED by a first call (matrixInverse default/UpperTriangular/PositiveDefinite, cholesky L, cholesky LDL D; first inputs: tridiagonal, diagonal 2, off-diagonals {0,1}) is handed to a second call of every routine as each matrix buffer its option set uses (InSitu Id/A/Cholesky.L/D, backSubstitution InSitu.A, gaussJordan a/x) x regular admissible second inputs x all four element types, the second call must equal the same call with fresh buffers (non-trivial when the first call returned a matrix); " +
+			"plus two-call histories sharing one in-situ object (hist.go): every routine with work buffers x ordered pairs of option sets x first inputs of a lattice containing singular, not-SPD, non-triangular and non-finite matrices x regular admissible second inputs, the second call must equal the same call with fresh buffers (non-trivial when the first call failed or its input was inadmissible), and the input objects of the FIRST call (matrix, right-hand side; all but gaussJordan, whose arguments are its work space) must be bit for bit what the first call left, after the second call on the same in-situ object (caller input retained as persistent state); " +
+			"plus recycle histories (hist.go): the matrix RETURNED by a first call (matrixInverse default/UpperTriangular/PositiveDefinite, cholesky L, cholesky LDL D; first inputs: tridiagonal, diagonal 2, off-diagonals {0,1}) is handed to a second call of every routine as each matrix buffer its option set uses (InSitu Id/A/Cholesky.L/D, backSubstitution InSitu.A, gaussJordan a/x) x regular admissible second inputs x all four element types, the second call must equal the same call with fresh buffers and must leave the producer call's input matrix untouched (non-trivial when the first call returned a matrix); " +
+			"plus exact power-of-two scalings (scale.go): on the lattices n=1, n=2, n=3 over {0,1} (thorough {0,1,-1}), the symmetric n=3 matrices with diagonal 2 and the positive-definite tridiagonal / upper-triangular Toeplitz families of sizes 5 and 6 (thorough also size 4 and row-permuted triangular templates of sizes 4, 5), every routine x option set x right-hand side x all four element types on A*2^k, k in {+-120, +-400} for the 64-bit and {+-20, +-56} for the 32-bit element types (entries, reciprocals and products of two entries are normal numbers), for the determinant routes also k = +-800 resp. +-100 (the square root of the determinant leaves the range from n=2, 3); reference = exact unscaled reference shifted by the scaling law (det: 2^(kn), log det: + k n log 2, inverse and solutions: 2^-k), same relative tolerances; the plain determinant is judged only where the true value is a normal number of the element type with a margin of 2^24, the log-determinant always; a violation that also occurs unscaled keeps the unscaled key; " +
 			"a case is non-trivial when the selected block is exactly regular (defining equation checked against tol*kappa from the exact inverse) or structurally singular (must fail loudly or return non-finite values); exactly singular but not structurally singular blocks are executed but not judged",
 		Assume: []string{
 			"gaussJordan.Run is called with x = identity (its use as inverse/solve); UpperTriangular is only promised for x0 = I",
@@ -913,6 +994,8 @@ func main() {
 			"in-situ garbage placed by the harness is finite (no NaN/Inf placed in caller buffers); whatever the library itself leaves in the buffers after an earlier (also failed) call is a legitimate buffer state",
 			"view operands of one call never share storage with each other (aliasing is C08's subject); the storage of a sliced view outside the view holds finite junk and is not inspected afterwards (C10's subject); operands are filled entry by entry through At(i,j), never through the library's bulk setters",
 			"a matrix returned by a routine belongs to the caller and may be passed as any buffer of a later call",
+			"scaled inputs: the routines may form products of two entries (a[j,i]*a[i,k] before dividing by the pivot), so the scalings of the linear routines keep such products inside the range of the element type; a singular input's cofactor expansion is not judged when n-fold products leave the range",
+			"an input matrix or right-hand side handed to a call remains the caller's object: no later call on the same in-situ object may write to it",
 		},
 		Run: func(c *vf.Ctx) {
 			a5 := []int64{0, 1, -1, 2, -2}
@@ -936,6 +1019,7 @@ func main() {
 			fams = append(fams, largeFamilies(c.Thorough())...)
 			explore(c, fams)
 			exploreViews(c)
+			exploreScaled(c)
 			exploreHistories(c)
 			exploreRecycle(c)
 		},
